@@ -5,5 +5,6 @@ CONSTANTS
 INIT Init
 NEXT Next
 INVARIANT Inv
+INVARIANT ChunkIndependent
 INVARIANT Emit
 CHECK_DEADLOCK FALSE
